@@ -27,6 +27,7 @@ type route struct {
 	DelayMs     int               `json:"delay_ms,omitempty"`
 	FailFirst   int               `json:"fail_first,omitempty"`  // the first k requests get FailStatus (or a reset if FailStatus==0)
 	FailStatus  int               `json:"fail_status,omitempty"` // status used while failing
+	FailBody    []byte            `json:"fail_body,omitempty"`   // entity sent while failing (default: a short text)
 	AlwaysReset bool              `json:"always_reset,omitempty"`
 	TruncateAt  int               `json:"truncate_at,omitempty"` // announce the full Content-Length, send only this many bytes, then drop the connection
 	Tag         string            `json:"tag,omitempty"` // free-form label used by oracles (depth label, chain position, scope class...)
@@ -172,6 +173,9 @@ func (o *origin) handle(w http.ResponseWriter, req *http.Request) {
 			return
 		}
 		status, body, hdr = r.FailStatus, []byte(fmt.Sprintf("temporary failure %d\n", hit)), map[string]string{"Content-Type": "text/plain"}
+		if r.FailBody != nil {
+			body, hdr = r.FailBody, map[string]string{"Content-Type": "application/octet-stream"}
+		}
 	}
 	ent := body
 	for k, v := range hdr {
